@@ -23,6 +23,7 @@ const (
 	astPkgPath  = "github.com/grafana/cog/internal/ast"
 	omapPkgPath = "github.com/grafana/cog/internal/orderedmap"
 	toolPkgPath = "github.com/grafana/cog/internal/tools"
+	compPkgPath = "github.com/grafana/cog/internal/ast/compiler"
 )
 
 type refusal struct{ msg string }
@@ -42,7 +43,7 @@ type Ty struct {
 
 // Mode is how one field (or element) is copied.
 type Mode struct {
-	K    string `json:"k"` // byValue | freshSlice | freshMap | recur | viaPtrRec | shared | omitted
+	K    string `json:"k"` // byValue | freshSlice | freshMap | recur | viaPtrRec | shared | omitted | dyn
 	Elem *Mode  `json:"elem,omitempty"`
 	T    string `json:"t,omitempty"`
 }
@@ -66,7 +67,20 @@ type Root struct {
 	Ty     Ty     `json:"ty"`
 }
 
+// DynCase is one case of the dynamic-value helper (deepCopyValue): what happens to an `any`
+// holding a value of this dynamic type.  Dynamic types without a case are assigned as-is.
+type DynCase struct {
+	GoType string `json:"gotype"`
+	Ty     Ty     `json:"ty"`
+	Mode   Mode   `json:"mode"`
+	How    string `json:"how"`
+}
+
 type Output struct {
+	DynHelper string       `json:"dyn_helper"`
+	Dyn       []DynCase    `json:"dyn"`
+	DynAsIs   []string     `json:"dyn_asis"` // explicit cases that return the value as-is (scalars)
+	Process   *ProcessFact `json:"process"`
 	Structs     map[string][]FieldInfo `json:"structs"`
 	StructOrder []string               `json:"struct_order"`
 	Skipped     map[string]string      `json:"skipped"` // ast structs that are not IR data (func/chan fields)
@@ -82,6 +96,7 @@ type world struct {
 	pkgs    map[string]*packages.Package
 	astPkg  *packages.Package
 	out     *Output
+	dynFn   *types.Func
 	methods map[string]*method // receiver base type name -> DeepCopy method
 	done    map[string]bool    // methods analysed
 	busy    map[string]bool
@@ -91,8 +106,10 @@ type method struct {
 	decl     *ast.FuncDecl
 	recvName string       // receiver variable name
 	recvObj  types.Object // receiver variable
-	base     *types.Named // receiver base type
+	name     string
+	base     types.Type // receiver base type (a named type for methods; any type for a case of the dynamic-value helper)
 	result   types.Type
+	loose    bool  // result is `any` (case of the dynamic-value helper): no result-type identity check
 	rootMode *Mode // for non-struct receivers: mode of the whole receiver
 }
 
@@ -241,7 +258,7 @@ func main() {
 		Tests: false,
 		Env:   os.Environ(),
 	}
-	loaded, err := packages.Load(cfg, astPkgPath, omapPkgPath, toolPkgPath)
+	loaded, err := packages.Load(cfg, astPkgPath, omapPkgPath, toolPkgPath, compPkgPath)
 	if err != nil {
 		fmt.Fprintln(os.Stderr, "xcopy: load:", err)
 		os.Exit(2)
@@ -271,10 +288,10 @@ func main() {
 				continue
 			}
 			m := w.newMethod(fd)
-			if _, dup := w.methods[m.base.Obj().Name()]; dup {
-				refuse("two DeepCopy methods on %s", m.base.Obj().Name())
+			if _, dup := w.methods[m.name]; dup {
+				refuse("two DeepCopy methods on %s", m.name)
 			}
-			w.methods[m.base.Obj().Name()] = m
+			w.methods[m.name] = m
 		}
 	}
 	names := make([]string, 0, len(w.methods))
@@ -297,6 +314,8 @@ func main() {
 		}
 		w.out.Roots = append(w.out.Roots, r)
 	}
+
+	w.out.Process = w.processFact()
 
 	// 2. every struct type of package ast (IRFields); non-data structs are listed as skipped
 	scope := w.astPkg.Types.Scope()
@@ -354,7 +373,7 @@ func (w *world) newMethod(fd *ast.FuncDecl) *method {
 		refuse("%s: DeepCopy receiver is not a named type", w.pos(fd))
 	}
 	res := w.info().TypeOf(fd.Type.Results.List[0].Type)
-	return &method{decl: fd, recvName: id.Name, recvObj: obj, base: named, result: res}
+	return &method{decl: fd, recvName: id.Name, recvObj: obj, name: named.Obj().Name(), base: named, result: res}
 }
 
 func (w *world) pos(n ast.Node) string {
